@@ -29,7 +29,7 @@ from ..mmio import *
 EXPLANATION = ("bar_info and cam_offset are loop-free: their MIR is converted to guarded traces of ConfigurationAccess reads/writes "
                "and folded against a Python model of PCI configuration space over an enumerated table of BAR kinds, sizes, slots "
                "and command values; returned values and final register state are compared with the PCI 3.0 definition.")
-FLOORS = {'command_bracket_fns': 1, 'identity_fields': 6, 'cam_accessors': 2, 'bus_iterators': 1, 'bar_scenarios': 1000, 'cam_rows': 500}
+FLOORS = {'command_bracket_fns': 1, 'identity_fields': 6, 'cam_accessors': 2, 'bus_iterators': 1, 'bar_scenarios': 1000, 'cam_rows': 500, 'cap_list_starts': 1, 'bus_walk_starts': 1}
 CFGACC = 'transport::pci::bus::ConfigurationAccess'
 
 
@@ -124,8 +124,11 @@ def run(F, R):
         if any(l['ty'] == 'u8' for l in b['locals'][1:b['arg_count'] + 1]):
             b1_b2(F, R, b)
     b3_cam(F, R)
+    b3b_valid(F, R)
     b4_decode(F, R)
+    b4b_list_start(F, R)
     b5_bus_walk(F, R)
+    b5b_walk_start(F, R)
     b6_restore_on_every_exit(F, R)
 
 
@@ -574,6 +577,136 @@ def b5_bus_walk(F, R):
         R.tables += rows
         R.check(bad is None, 'B5', '%s:walk' % b['id'], where, 'every (device 0..31, function 0..7) probed exactly once; a present function is reported as itself (%d steps folded)' % rows,
                 'bus enumeration: %s' % bad)
+
+
+def b5b_walk_start(F, R):
+    """The bus walk starts at device 0, function 0 of the requested bus (B5 decides the transition from there)."""
+    n = 0
+    for b in F.bodies.values():
+        if not F.handwritten(b) or b['kind'] != 'AssocFn' or 'impl_trait' in b or '-> transport::pci::bus::BusDeviceIterator<' not in b.get('sig', ''):
+            continue
+        sg = supergraph(F, b['id'])
+        where = fn_site(F, b['id'])
+        paths = [p for p in PathEnum(sg).run() if not p.panicked]
+        n += 1
+        bad = None
+        fn = sg.entry_fn
+        pbus = [i + 1 for i, l in enumerate(fn['locals'][1:fn['arg_count'] + 1]) if l['ty'] == 'u8']
+        for p in paths:
+            dfs = [x for x in subterms(p.ret) if x[0] == 'agg' and x[1].startswith('transport::pci::bus::DeviceFunction::')] if p.ret else []
+            if len(dfs) != 1:
+                bad = 'cannot find the start position in %s' % (fmt(p.ret)[:80] if p.ret else None)
+                continue
+            f = dict(zip(dfs[0][3], dfs[0][2]))
+            dv, fv = fold_const(f.get('device', ('?',))), fold_const(f.get('function', ('?',)))
+            bus_ok = len(pbus) == 1 and strip_conv(f.get('bus', ('?',))) == ('param', pbus[0])
+            if dv != 0 or fv != 0 or not bus_ok:
+                bad = 'enumeration of a bus starts at bus=%s device=%s function=%s, expected (the requested bus, 0, 0): functions before it are never reported' % (
+                    fmt(f.get('bus', ('?',)))[:30], dv, fv)
+        R.check(bad is None and bool(paths), 'B5', '%s:walk-start' % b['id'], where, 'walk starts at (bus, 0, 0)', 'bus walk: %s' % bad)
+    R.count('bus_walk_starts', n)
+
+
+def b4b_list_start(F, R):
+    """Start of the capability list: present iff Status bit 4, at the pointer byte of register 0x34 with the two reserved
+    low bits masked (PCI 3.0 6.7)."""
+    n = 0
+    for b in F.bodies.values():
+        if not F.handwritten(b) or b['kind'] != 'AssocFn' or 'impl_trait' in b or not b.get('pub'):
+            continue
+        if '-> transport::pci::bus::CapabilityIterator<' not in b.get('sig', ''):
+            continue
+        sg = supergraph(F, b['id'])
+        where = fn_site(F, b['id'])
+        try:
+            paths = [p for p in PathEnum(sg).run()]
+        except PathLimit as e:
+            R.abstain('B4', b['id'] + ':list-start', str(e), where)
+            continue
+        n += 1
+        bad = None
+        rows = 0
+        for status in (0x0000, 0x0010, 0xffef, 0xffff, 0x0210):
+            for ptr in (0x00000000, 0x00000040, 0x00000041, 0x00000043, 0x000000fc, 0x000000ff, 0x12345678):
+                def leaf(t, status=status, ptr=ptr):
+                    if t[0] == 'call' and 'read_word' in t[2] and len(t[3]) > 2:
+                        off = fold_const(t[3][2])
+                        if off == 4:
+                            return (status << 16) | 0x0007
+                        if off == 0x34:
+                            return ptr
+                    raise Unfoldable(fmt(t)[:80])
+                fo = Folder(leaf)
+                try:
+                    hit = [p for p in paths if path_holds(fo, p)]
+                except Unfoldable as e:
+                    R.abstain('B4', b['id'] + ':list-start', 'cannot fold: %s' % e, where)
+                    bad = 'abstain'
+                    break
+                rows += 1
+                if len(hit) != 1 or hit[0].panicked or hit[0].ret is None or hit[0].ret[0] != 'agg':
+                    bad = 'status %#x pointer word %#x: %s' % (status, ptr, 'panics' if hit and hit[0].panicked else '%d feasible paths' % len(hit))
+                    break
+                opts = [x for x in hit[0].ret[2] if x[0] == 'agg' and x[1].startswith('core::option::Option::')]
+                if len(opts) != 1:
+                    bad = 'cannot find the start position in %s' % fmt(hit[0].ret)[:80]
+                    break
+                got = fo.ev(opts[0][2][0]) if opts[0][1].endswith('::Some') else None
+                want = (ptr & 0xfc) if status & 0x10 else None
+                if got != want:
+                    bad = 'status %#06x, capabilities pointer word %#x: the walk starts at %s, expected %s' % (
+                        status, ptr, hex(got) if got is not None else 'nothing', hex(want) if want is not None else 'nothing (no capability list)')
+                    break
+            if bad:
+                break
+        R.tables += rows
+        if bad != 'abstain':
+            R.check(bad is None, 'B4', '%s:list-start' % b['id'], where, 'walk starts at (pointer & 0xfc) iff Status.CAPABILITIES_LIST (%d rows)' % rows,
+                    'capability walk start: %s' % bad)
+    R.count('cap_list_starts', n)
+
+
+def b3b_valid(F, R):
+    """DeviceFunction::valid guards the offset computation: exactly device < 32 and function < 8."""
+    for b in F.bodies.values():
+        if not F.handwritten(b) or b['kind'] != 'AssocFn' or b.get('impl_adt') != 'transport::pci::bus::DeviceFunction' or 'impl_trait' in b:
+            continue
+        if not b.get('sig', '').endswith('-> bool') or b['arg_count'] != 1:
+            continue
+        sg = supergraph(F, b['id'])
+        where = fn_site(F, b['id'])
+        paths = PathEnum(sg).run()
+        bad = None
+        rows = 0
+        for dev in (0, 1, 31, 32, 33, 255):
+            for fun in (0, 7, 8, 9, 255):
+                def leaf(t, dev=dev, fun=fun):
+                    if t[0] in ('load0', 'load') and t[1][2] and t[1][2][-1][0] == 'f':
+                        f_ = t[1][2][-1][1]
+                        if f_ == 'device':
+                            return dev
+                        if f_ == 'function':
+                            return fun
+                        if f_ == 'bus':
+                            return 0
+                    raise Unfoldable(fmt(t)[:80])
+                fo = Folder(leaf)
+                try:
+                    hit = [p for p in paths if path_holds(fo, p)]
+                    got = fo.ev(hit[0].ret) if len(hit) == 1 and not hit[0].panicked else None
+                except Unfoldable as e:
+                    R.abstain('B3', b['id'] + ':valid-table', 'cannot fold: %s' % e, where)
+                    return
+                rows += 1
+                want = int(dev < 32 and fun < 8)
+                if got != want:
+                    bad = 'device %d function %d is reported %s' % (dev, fun, {1: 'valid', 0: 'invalid', None: '?'}[got])
+                    break
+            if bad:
+                break
+        R.tables += rows
+        R.check(bad is None, 'B3', '%s:valid-table' % b['id'], where, 'valid iff device < 32 and function < 8 (%d rows)' % rows,
+                'the validity test that bounds configuration-space offsets is wrong: %s; offsets of such a tuple collide with another function\'s' % bad)
 
 
 def b4_decode(F, R):
